@@ -97,7 +97,11 @@ def plain(x):
 
 if __name__ == "__main__":
     hist = json.load(open(sys.argv[1]))
-    make_files(tempfile.mkdtemp(prefix="verif_wfcc_files_"))
+    import atexit
+    import shutil
+    BASE = tempfile.mkdtemp(prefix="verif_wfcc_files_")
+    atexit.register(shutil.rmtree, BASE, True)
+    make_files(BASE)
     res, ids = [], {}
     keep = []
     for op in hist:
@@ -105,7 +109,7 @@ if __name__ == "__main__":
         keys = sorted(set(("x", "ys", "flag")) - set(op["lazy"]))
         try:
             if op["op"] == "run":
-                out = t(cache_root=tempfile.mkdtemp())
+                out = t(cache_root=tempfile.mkdtemp(dir=BASE))
                 wf = Workflow.construct(t)     # what the run used (exact hit by construction)
                 rec = {"out": plain(out.out)}
             else:
